@@ -557,6 +557,39 @@ func runC19(c *mc.Ctx) {
 			lcalls.Add(n)
 		})
 		c.Note("calls_on_longer_lists", lcalls.Load())
+		// a 300-coin list (counts beyond one byte), distinct values and value-ages, boundary parameters
+		{
+			n := 300
+			big := make([][2]int64, n)
+			for i := range big {
+				big[i] = [2]int64{int64((i*7)%n + 1), 1} // a permutation of 1..300, one confirmation each
+			}
+			var cs []c19Sel
+			for _, k := range []int{1, 2, 255, 256, 257, 299, 300} {
+				top := int64(0) // sum of the k largest values
+				for v := n; v > n-k; v-- {
+					top += int64(v)
+				}
+				pre := int64(0) // sum of the first k list entries
+				for i := 0; i < k; i++ {
+					pre += big[i][0]
+				}
+				for _, sel := range c19Selectors {
+					for _, tgt := range []int64{top - 1, top, top + 1, pre - 1, pre, pre + 1} {
+						for _, mi := range []int{k - 1, k, k + 1, 300, 301} {
+							for _, ch := range []int64{0, 1, 2} {
+								cs = append(cs, c19Sel{Sel: sel, Coins: big, Target: tgt, MaxInputs: mi, MinChange: ch, MinAvg: 1})
+							}
+						}
+					}
+				}
+			}
+			c.Space("300-coin list x selectors x boundary targets / MaxInputs / MinChange", int64(len(cs)))
+			c.ParFor(int64(len(cs)), func(w *mc.W, i int64) {
+				w.State()
+				c19EvalSel(w, cs[i])
+			})
+		}
 	}
 	c.Sample("sel", c19Sel{Sel: "minpriority", Coins: [][2]int64{{1, 0}, {2, 1}, {5, 2}}, Target: 3, MaxInputs: 2, MinChange: 1, MinAvg: 2})
 	c.Sample("sel", c19Sel{Sel: "minnumber", Coins: [][2]int64{{2, 0}, {2, 1}, {3, 2}}, Target: 5, MaxInputs: 2, MinChange: 0})
